@@ -193,7 +193,7 @@ def run(ctx):
                 continue
             check_form(ctx, year, cat, fname, form)
     ctx.exhaustive = True
-    p = '/repo/habutax/forms/ty2023/f1040.pdf'
+    p = catalog.get(2023).forms['1040'].pdf_file()
     xf = pdf.xfa_fields(p)
     k = 'topmostSubform[0].Page1[0].Line4a-11_ReadOrder[0].f1_53[0]'
     ctx.sample({'year': 2023, 'form': '1040', 'target': k, 'mapped_line': '9', 'template_text': xf.get(k, {}).get('speak')})
